@@ -161,7 +161,9 @@ def get_count__total_expansion__start_size(length, total_expansion, start_size):
             1 - total_expansion ** (1 / (cnt - 1))
         ) - length / start_size
 
-    return int(scipy.optimize.brentq(fcnt, 0, length / d_min)) + 1  # type: ignore
+    # the root approaches length / d_min when total expansion approaches 1;
+    # look a cell further so that it stays safely inside the bracket
+    return int(scipy.optimize.brentq(fcnt, 0, length / d_min + 1)) + 1  # type: ignore
 
 
 ### functions returning c2c_expansion
